@@ -363,7 +363,7 @@ impl<'a> Gen<'a> {
         (0..n).map(|_| self.g()).collect()
     }
     fn lookup_index(&mut self) -> i64 {
-        if self.catch_all && self.rng.chance(1, 2) {
+        if self.catch_all && self.rng.chance(3, 4) {
             return 0;
         }
         if self.rng.chance(1, 40) {
@@ -373,10 +373,10 @@ impl<'a> Gen<'a> {
         }
     }
     fn recs(&mut self, input_len: i64) -> T {
-        let n = self.rng.range(0, 3);
+        let n = if self.rng.chance(1, 8) { 0 } else { self.rng.range(1, 3) };
         T::L((0..n)
             .map(|_| {
-                let si = if self.rng.chance(1, 15) { input_len + self.rng.range(0, 2) } else { self.rng.range(0, (input_len - 1).max(0)) };
+                let si = if self.rng.chance(1, 25) { input_len + self.rng.range(0, 2) } else { self.rng.range(0, (input_len - 1).max(0)) };
                 T::of_ints(&[si, self.lookup_index()])
             })
             .collect())
@@ -471,7 +471,7 @@ impl<'a> Gen<'a> {
                             sets.push(T::none());
                             continue;
                         }
-                        let nr = self.rng.range(0, 2);
+                        let nr = if self.rng.chance(1, 8) { 0 } else { self.rng.range(1, 2) };
                         let mut rules = vec![];
                         for _ in 0..nr {
                             let input = self.gs(0, 2);
@@ -494,7 +494,7 @@ impl<'a> Gen<'a> {
                             sets.push(T::none());
                             continue;
                         }
-                        let nr = self.rng.range(0, 2);
+                        let nr = if self.rng.chance(1, 8) { 0 } else { self.rng.range(1, 2) };
                         let mut rules = vec![];
                         for _ in 0..nr {
                             let n = self.rng.range(0, 2);
@@ -534,7 +534,7 @@ impl<'a> Gen<'a> {
                             sets.push(T::none());
                             continue;
                         }
-                        let nr = self.rng.range(0, 2);
+                        let nr = if self.rng.chance(1, 8) { 0 } else { self.rng.range(1, 2) };
                         let mut rules = vec![];
                         for _ in 0..nr {
                             let (b, i, l) = (self.gs(0, 2), self.gs(0, 2), self.gs(0, 2));
@@ -559,7 +559,7 @@ impl<'a> Gen<'a> {
                             sets.push(T::none());
                             continue;
                         }
-                        let nr = self.rng.range(0, 2);
+                        let nr = if self.rng.chance(1, 8) { 0 } else { self.rng.range(1, 2) };
                         let mut rules = vec![];
                         for _ in 0..nr {
                             let cls = |g: &mut Gen, hi: i64| -> Vec<i64> {
@@ -623,7 +623,11 @@ impl<'a> Gen<'a> {
 
     fn lookup(&mut self) -> T {
         let ty = *self.rng.pick(&[1i64, 1, 2, 2, 3, 4, 4, 4, 5, 5, 6, 6, 6, 8]);
-        let (flag, mfs) = gen_flag(self.rng);
+        let (mut flag, mut mfs) = gen_flag(self.rng);
+        if (ty == 5 || ty == 6) && self.rng.chance(1, 2) {
+            flag = 0;
+            mfs = None;
+        }
         let nsub = match self.rng.below(10) {
             0 => 0,
             1..=5 => 1,
@@ -659,7 +663,7 @@ fn cov_member_list(cov: &T) -> Vec<i64> {
 fn gen(rng: &mut Rng) -> String {
     let gdef = gen_gdef(rng);
     let nlookups = rng.range(1, 5);
-    let catch_all = rng.chance(1, 2);
+    let catch_all = rng.chance(2, 3);
     let mut g = Gen { rng, nlookups, hits: vec![], cur: 0, catch_all };
     let mut lookups: Vec<T> = vec![];
     for k in 0..nlookups {
